@@ -1,2 +1,24 @@
 From InvokeVerif Require Export Corr.RunnerCorr.
 Definition spec (k : case) : bool := spec14 k.
+
+(** Timeout source at the Program level (CLI run of a task whose body calls c.run):
+    run() keyword > -T > the merged configuration below the overrides level
+    (environment variable > project file > collection configuration).  Values in
+    seconds; [p_got] = interval of the Timer that was armed (None: no timer),
+    [p_num] = that interval is a number. *)
+Record pcase := mkp {
+  p_kw : option nat; p_cli : option nat; p_lower : option nat;
+  p_got : option nat; p_num : bool
+}.
+
+Definition program_timeout (kw cli lower : option nat) : option nat :=
+  match kw with
+  | Some v => Some v
+  | None => match cli with
+            | Some n => if Nat.eqb n 0 then lower else Some n      (* [if command:] drops -T 0 *)
+            | None => lower
+            end
+  end.
+
+Definition pcorr (c : pcase) : bool :=
+  p_num c && opt_nat_eqb (program_timeout (p_kw c) (p_cli c) (p_lower c)) (p_got c).
